@@ -55,4 +55,4 @@ Definition joinaccept_unmarshal_chk (data : list N) : outcome payload :=
   do rxd <- go_index data 11;
   let '(optneg, rx2, rx1) := dec_dlsettings d0 in
   do cf <- (if (l =? 28)%Z then do rest <- go_slice data 12 l; do c <- cflist_unmarshal_chk rest; Ok (Some c) else Ok None);
-  Ok (PLJoinAccept (le_val jn) (rev nid) (rev da) optneg rx2 rx1 rxd cf).
+  Ok (PLJoinAccept (le_val jn) (rev nid) (rev da) optneg rx2 rx1 (N.land rxd 15) cf).
